@@ -17,7 +17,14 @@
 #ifndef N
 #define N 4
 #endif
+#ifdef BIG
+/* BIG: crosses the dmax > 0x20 switch between the byte loop and memset in the slack-nulling code:
+   one arena of 44 elements, dest and src at CONCRETE offsets (BIGDIR 0: dest below src, 1: above),
+   dmax symbolic in 33..38, strings of at most N (=2) elements */
+#define ASZ 44
+#else
 #define ASZ (2 * N + 2)
+#endif
 
 #ifdef WIDE
 typedef wchar_t CH;
@@ -110,6 +117,14 @@ void harness(void)
     if (IN.layout == 0) {
         /* constant-size arena; operands may sit flush against either end */
         ASSUME(IN.asz == ASZ && IN.doff < IN.asz && IN.soff < IN.asz);
+#ifdef BIG
+#if BIGDIR == 0
+        ASSUME(IN.doff == 0 && IN.soff == 40);
+#else
+        ASSUME(IN.doff == 4 && IN.soff == 0);
+#endif
+        ASSUME(IN.dmax >= 33 && IN.dmax <= 38 && !IN.dest_null && !IN.src_null && !IN.bos_known);
+#endif
         asz = IN.asz; doff = IN.doff; soff = IN.soff;
         arena = malloc(ASZ * sizeof(CH));
         ASSUME(arena != NULL);
@@ -137,6 +152,10 @@ void harness(void)
     if (!IN.bos_known) ASSUME(dmax > RMAX || dmax <= dext);  /* dest really has dmax elements */
     size_t sl = ref_nlen(s0, sext);            /* source length; == sext when unterminated */
     int s_term = sl < sext;
+#ifdef BIG
+    ASSUME(sl <= N && s_term);                 /* short strings keep every scan loop short */
+    if (IS_CAT) ASSUME(ref_nlen(d0, dmax) <= N);
+#endif
     /* an unterminated source must at least have as many elements as the call may read */
 #if HAS_SLEN
     if (!s_term) ASSUME(sext >= slen || sext >= dmax || IN.sbos_known);
